@@ -148,6 +148,15 @@ def check(spec, ctx):
                     raise Violation("read_block:out-of-range-accepted", f"{ctxt}: read_block({start},{ns}) N={N}")
                 if b.data.shape != (nchan, ns) or not np.array_equal(b.data, W[:, start : start + ns]):
                     raise Violation("read_block:position-dependent", f"{ctxt}: read_block({start},{ns}) differs from whole[:, {start}:{start + ns}] (shape {b.data.shape})")
+                # the block's header describes the block ("header quantities are plain numbers in the same units as for
+                # SIGPROC files"): its length, its channels, and the epoch of ITS first sample
+                bh = b.header
+                if bh.nsamples != ns or bh.nchans != nchan or bh.tsamp != hdr.tsamp:
+                    raise Violation("read_block:header-shape", f"{ctxt}: read_block({start},{ns}) header says ({bh.nchans},{bh.nsamples}) tsamp {bh.tsamp!r}")
+                tol_s = (1.0 if spec["imjd"] in LEAP_DAYS else 0.0) + 5e-6
+                if abs((bh.tstart - (hdr.tstart + start * hdr.tsamp / 86400.0)) * 86400.0) > tol_s:
+                    raise Violation("read_block:header-tstart", f"{ctxt}: read_block({start},{ns}): tstart {bh.tstart!r}, file start advanced by {start} samples is "
+                                    f"{hdr.tstart + start * hdr.tsamp / 86400.0!r}")
                 if start // nblk != (start + ns - 1) // nblk or start % nblk:
                     crossing = True
         # ---- selection of a channel range by the label of its first channel
